@@ -15,6 +15,16 @@ def run(chk):
         chk.violation("cache-panic", res["panic"], dict(kind="cache-panic", detail=res["panic"]))
     validated, nchunks = c08.validate(chk, lines, lambda ev, inv: True)
     ngets = sum(1 for l in lines if '"ev":"get"' in l)
+    # layout change under waiting requests (Outage.tla, establisher replacing the region): the design that drops the replaced
+    # region's connection before releasing the waiters holds; the other order must give the counter-example that the forced
+    # real-time schedule of the driver (class D) reproduces on the real client
+    rr = vlib.run_tlc("MC_Outage", "MC_Outage_replace.cfg", timeout=1500)
+    vlib.tlc_must_pass(rr, "MC_Outage_replace")
+    chk.add_tlc(rr)
+    nr = vlib.run_tlc("MC_Outage", "MC_Outage_availbeforedel.cfg", timeout=600)
+    if nr["violated"] != "NoSendAfterReplace":
+        raise vlib.MachineryError("MC_Outage_availbeforedel: expected the NoSendAfterReplace counter-example, got %r" % (nr["violated"],))
+    chk.cov["model_counterexample_release_before_drop"] = "NoSendAfterReplace"
     # routing half
     wd = vlib.scratch("verif-c01-")
     g = vlib.run_tlc("Gen_Routing", workers=1, timeout=120, workdir=wd)
